@@ -136,6 +136,13 @@ def gen_hist(ctx, n, with_time):
         ((0, 1, 0, 0, 0), ["c", "w:1:p1:s", "w:1:p2:r", "w:1:p2:r", "w:1:p3:r", "d:2", "d:3", "w:1:p3:r"]),   # reconnect with the same peer id replaces
         ((0, 0, 0, 0, 0), ["c", "w:1:p1:s", "w:1:p1:s", "d:2", "w:1:p5:r", "d:3", "w:1:p6:r"]),                # host reconnects, old socket ends later
     ]
+    # a receiver that uses the host's peer id takes the host's place in the routing table; the host's own disconnect still ends the session
+    aimed += [
+        ((0, 0, 0, 0, 0), ["c", "w:1:p1:s", "w:1:p1:r", "d:1", "w:1:p5:r", "w:1:p1:r", "c", "w:2:p1:s"]),
+        ((0, 0, 0, 0, 0), ["c", "w:1:p1:s", "w:1:p1:r", "d:2", "d:1", "w:1:p5:r"]),
+        ((1, 0, 0, 0, 0), ["c", "w:1:p1:s", "w:1:p2:r", "w:1:p1:r", "d:1", "c", "w:1:p6:r", "w:2:p1:s"]),
+        ((0, 2, 0, 0, 0), ["c", "w:1:p3:s", "w:1:p3:r", "w:1:p3:r", "d:1", "w:1:p4:r", "d:2", "d:3", "w:1:p4:r"]),
+    ]
     if with_time:
         aimed += [
             ((0, 0, 0, 0, 1500), ["c", "w:1:p1:s", "w:1:p2:r", "t:1000", "w:1:p3:r", "t:1000", "w:1:p4:r", "c", "w:2:p1:s"]),
